@@ -19,6 +19,12 @@ pub struct CorrTrain {
     #[serde(default)]
     pub branch: bool,
     pub train: TrainSpec,
+    /// main-line stage the train starts on / ends on instead of the terminal in its direction
+    /// (intermediate origin / destination)
+    #[serde(default)]
+    pub from: Option<usize>,
+    #[serde(default)]
+    pub to: Option<usize>,
 }
 
 #[derive(Serialize, Deserialize, Clone, Debug)]
@@ -35,12 +41,17 @@ pub struct Built {
 }
 
 pub fn od_links(c: &Corridor, east: bool, branch: bool) -> (Vec<u32>, Vec<u32>) {
+    od_links_at(c, east, branch, None, None)
+}
+
+pub fn od_links_at(c: &Corridor, east: bool, branch: bool, from: Option<usize>, to: Option<usize>) -> (Vec<u32>, Vec<u32>) {
     // eastern terminal: last main-line stage, or last branch stage
     let e = if branch && c.fwd.len() > c.n_main { c.fwd.len() - 1 } else { c.n_main - 1 };
+    let st = |i: Option<usize>, dflt: usize| i.filter(|k| *k < c.n_main).unwrap_or(dflt);
     if east {
-        (c.fwd[0].clone(), c.fwd[e].clone())
+        (c.fwd[st(from, 0)].clone(), c.fwd[st(to, e)].clone())
     } else {
-        (c.rev[e].clone(), c.rev[0].clone())
+        (c.rev[st(from, e)].clone(), c.rev[st(to, 0)].clone())
     }
 }
 
@@ -49,7 +60,7 @@ pub fn build(case: &DispatchCase) -> anyhow::Result<Built> {
     let mut slts = vec![];
     let mut ods = vec![];
     for (i, t) in case.trains.iter().enumerate() {
-        let (o, d) = od_links(&corridor, t.east, t.branch);
+        let (o, d) = od_links_at(&corridor, t.east, t.branch, t.from, t.to);
         let mut lm: HashMap<String, Vec<Location>> = HashMap::new();
         lm.insert("O".into(), o.iter().map(|l| location("O", *l)).collect());
         lm.insert("D".into(), d.iter().map(|l| location("D", *l)).collect());
@@ -120,6 +131,7 @@ pub fn gen_dispatch_case(g: &mut Gen, max_trains: usize, o: &CorridorOpts) -> Di
         .and_then(|b| b.stages.last())
         .map(|s| s.main.length.min(s.side.as_ref().map(|x| x.length).unwrap_or(f64::INFINITY)))
         .unwrap_or(f64::INFINITY);
+    // corridors with short ends: trains may be (much) longer than their terminal segments
     let max_len = term.min(term_side).min(bterm) - 200.0;
     let mut trains = vec![];
     // departure pattern: all equal / bunched within a few minutes / spread over an hour
@@ -132,9 +144,43 @@ pub fn gen_dispatch_case(g: &mut Gen, max_trains: usize, o: &CorridorOpts) -> Di
             _ => Gen::round(g.f64(0.0, 3600.0), 0),
         };
         let east = g.bool(0.5);
-        let branch = net.branch.is_some() && g.bool(0.5);
+        let mut branch = net.branch.is_some() && g.bool(0.5);
         let _ = i;
-        trains.push(CorrTrain { east, branch, train: t });
+        // 8 % of the trains: intermediate destination on the main line, at least 9 km apart
+        // (shorter routes only reproduce the look-ahead finding of C15); the origin stage must
+        // hold the train
+        let (mut from, mut to) = (None, None);
+        let nm = net.stages.len();
+        if nm >= 3 && g.bool(0.08) {
+            let a = g.usize(0, nm - 1);
+            let b = g.usize(0, nm - 1);
+            let (lo, hi) = (a.min(b), a.max(b));
+            let dist: f64 = net.stages[lo..=hi].iter().map(|s| s.main.length).sum();
+            let (o_st, d_st) = if east { (lo, hi) } else { (hi, lo) };
+            let o_len = net.stages[o_st].main.length.min(net.stages[o_st].side.as_ref().map(|x| x.length).unwrap_or(f64::INFINITY));
+            if lo < hi && dist >= 9000.0 && o_len >= t.length() + 200.0 && o_len >= 2500.0 {
+                // intermediate origins are generated only when asked for (VERIF_MID_ORIGINS): a
+                // train that materialises on a running line is outside what the dispatcher
+                // models (see DESIGN §6)
+                from = if o_st == 0 || o_st == nm - 1 || std::env::var("VERIF_MID_ORIGINS").is_err() { None } else { Some(o_st) };
+                if from.is_none() && o_st != 0 && o_st != nm - 1 {
+                    // keep the destination, start from the terminal
+                }
+                to = if d_st == 0 || d_st == nm - 1 { None } else { Some(d_st) };
+                if to.is_some() || (!east && from.is_some()) {
+                    // the branch terminal is only an eastern end point
+                    branch = branch && (if east { to.is_none() } else { from.is_none() });
+                }
+                // a branch train must still pass the junction
+                if let (true, Some(br)) = (branch, net.branch.as_ref()) {
+                    let ok = if east { from.map(|f| f <= br.at).unwrap_or(true) } else { to.map(|t| t <= br.at).unwrap_or(true) };
+                    if !ok {
+                        branch = false;
+                    }
+                }
+            }
+        }
+        trains.push(CorrTrain { east, branch, train: t, from, to });
     }
     DispatchCase { net, trains }
 }
@@ -148,6 +194,9 @@ pub fn scenario_labels(case: &DispatchCase, cx: &mut Ctx) {
     cx.label_if(yard0 && yard1, "yard_terminals");
     cx.label_if(case.net.total_main_length() < 5.0 * 1609.344, "short_route");
     cx.label_if(case.net.lockout_stage.is_some(), "lockout_declared");
+    cx.label_if(case.trains.iter().any(|t| t.from.is_some()), "train_with_intermediate_origin");
+    cx.label_if(case.trains.iter().any(|t| t.to.is_some()), "train_with_intermediate_destination");
+    cx.label_if(case.trains.iter().any(|t| t.to.map(|k| case.net.stages[k].main.length < t.train.length()).unwrap_or(false)), "train_ends_on_a_stage_shorter_than_itself");
     cx.label_if(case.net.branch.is_some(), "y_junction");
     cx.label_if(case.trains.iter().any(|t| t.branch) && case.trains.iter().any(|t| !t.branch), "trains_to_both_eastern_terminals");
     let e = case.trains.iter().filter(|t| t.east).count();
